@@ -147,7 +147,7 @@ func TestGovcBoundedHeight(t *testing.T) {
 	for n := 1; n <= 2*bound; n++ {
 		keys := make([]int, n)
 		for i := range keys {
-			keys[i] = (i * 7919) % (4 * bound) * 4 * bound + i // distinct, unsorted
+			keys[i] = (i*7919)%(4*bound)*4*bound + i // distinct, unsorted
 		}
 		tr := New(250, cmp, keys...)
 		cases++
